@@ -240,7 +240,34 @@ def r1_r2(L, repo):
                 L.require("C01.R1", F, cls + ".parse_msg", "%s: decoder takes the burst from octet HDR_LEN on" % fn,
                           "memoryview(%s)[self.HDR_LEN:]" % msg, src)
                 want_enc = "self.burst" if cls == "TxMsg" else "self.sbit2usbit(self.burst)"
-                L.require("C01.R1", F, cls + ".append_burst_to", "%s: burst coding on the wire" % fn, want_enc, canon(burst_seg.expr))
+                # decided by folding the appended expression for bursts that carry every legal item value: hard bits go
+                # out as they are, soft bits s as the octet 127 - s, in order
+                from consteval import Arr
+                if cls == "TxMsg":
+                    wit = [bytearray([0, 1, 1, 0, 1, 0, 0, 0, 1] * 17)[:148]]
+                    wants = [bytes(wit[0])]
+                else:
+                    vals = list(range(-127, 128))
+                    wit = [Arr("b", vals[:148]), Arr("b", vals[107:])]
+                    wants = [bytes(127 - x for x in w) for w in wit]
+                folded = True
+                for w, wb in zip(wit, wants):
+                    try:
+                        got = Ev(repo, ci.mod, env={"self.burst": w, "self.ver": ver}, self_cls=ci).ev(burst_seg.expr)
+                        got = got.tobytes() if isinstance(got, Arr) else bytes(got) if isinstance(got, (bytes, bytearray, list)) else got
+                    except Raised as ex:
+                        got = "raises %s" % ex.cls
+                    except (Unknown, ValueError, TypeError):
+                        folded = False
+                        break
+                    L.ob("C01.R1", F, cls + ".append_burst_to", "%s: burst coding on the wire (%s)" % (
+                        fn, "hard bits unchanged" if cls == "TxMsg" else "soft bits %d..%d as octets 127 - s" % (w[0], w[-1])),
+                        wb[:6].hex() + "...", got[:6].hex() + "..." if isinstance(got, bytes) else got, got == wb, getattr(burst_seg.node, "lineno", None) if hasattr(burst_seg, "node") else None)
+                if folded:
+                    L.structural("C01.R1 %s burst coding through %s" % (fn, want_enc), L.require, "C01.R1", F, cls + ".append_burst_to",
+                                 "%s: burst coding on the wire" % fn, want_enc, canon(burst_seg.expr))
+                else:
+                    L.require("C01.R1", F, cls + ".append_burst_to", "%s: burst coding on the wire" % fn, want_enc, canon(burst_seg.expr))
             # legacy padding: v0 only, 2 octets, after the burst
             enc2 = Enc(repo, ci, ver, True, True)
             segs2 = enc2.run()
@@ -426,8 +453,30 @@ def r5_burst_len(L, repo, members):
         L.require("C01.R5", F, "RxMsg.parse_burst", "legacy strip applied for version %d" % ver,
                   ["%s = self._parse_burst_v0(%s)" % (PB, PB)] if ver == 0 else [], calls)
     rets = [canon(n.value) for n in ast.walk(pbr) if isinstance(n, ast.Assign) and canon(n.targets[0]) == "self.burst"]
-    L.require("C01.R5", F, "RxMsg.parse_burst", "received unsigned soft bits are converted back with usbit2sbit",
-              ["self.usbit2sbit(%s)" % PB], rets)
+    # decided by folding parse_burst (version 1: nothing is stripped) for bursts that carry every octet value 0..255:
+    # each received unsigned soft bit u comes back as 127 - u (255 as -127), in order, as signed items
+    folded = True
+    for lo in (0, 108):
+        data = bytes(range(lo, lo + G))
+        sub = Ev(repo, mod, env={PB: data, "self.ver": 1}, self_cls=rci)
+        try:
+            sub.run_block(pbr.body)
+            got = sub.env.get("self.burst")
+            got = list(got) if isinstance(got, list) else got
+        except Raised as ex:
+            got = "raises %s" % ex.cls
+        except Unknown:
+            folded = False
+            break
+        want = [(-127 if u == 255 else 127 - u) for u in data]
+        L.ob("C01.R5", F, "RxMsg.parse_burst", "received unsigned soft bits %d..%d are converted back to soft bits 127 - u (255 -> -127), in order" % (lo, lo + G - 1),
+             want[:4] + ["..."], got[:4] + ["..."] if isinstance(got, list) else got, got == want, pbr.lineno)
+    if folded:
+        L.structural("C01.R5 RxMsg.parse_burst converts through usbit2sbit", L.require, "C01.R5", F, "RxMsg.parse_burst",
+                     "received unsigned soft bits are converted back with usbit2sbit", ["self.usbit2sbit(%s)" % PB], rets)
+    else:
+        L.require("C01.R5", F, "RxMsg.parse_burst", "received unsigned soft bits are converted back with usbit2sbit",
+                  ["self.usbit2sbit(%s)" % PB], rets)
 
 
 def r6_ownership(L, repo):
